@@ -35,6 +35,8 @@ class ScriptReader(Native):
             v = self.values[self.k]
             self.k += 1
             self.log.append((name, tuple(args)))
+            if name == 'read_uint_or_none' and args and isinstance(args[0], int) and args[0] > 1 and v == 2 ** args[0] - 1:
+                raise AnalysisError('pipeline fold: the script gives %r for a %d-bit field, which is its all-ones pattern: write None for a missing value' % (v, args[0]))
             return v
         raise AnalysisError('pipeline fold: bit_reader.%s is not modelled' % name)
 
@@ -156,7 +158,7 @@ def templates():
          OP(201000), T()], [5, b'ABCD', 2801, 2801])
     t['nested associated fields (204 twice)'] = (
         [OP(204002), E(31021, 'ASSOCIATED FIELD SIGNIFICANCE', 'CODE TABLE', 6), OP(204003), E(31021, 'ASSOCIATED FIELD SIGNIFICANCE', 'CODE TABLE', 6), T(), OP(204000),
-         T(12103), OP(204000), T()], [1, 2, 9, 2801, 3, 2750, 2801])
+         T(12103), OP(204000), T()], [1, 2, 9, 2801, 2, 2750, 2801])
     t['missing values'] = ([T(), E(20003, 'PRESENT WEATHER', 'CODE TABLE', 9), E(20004, 'PAST WEATHER', 'FLAG TABLE', 1), T(12103)], [None, None, 1, 2750])
     return t
 
@@ -490,3 +492,67 @@ def reference_walk(members, script):
     if S['bm'] == 'COUNTING':
         define_bitmap()
     return out, links, k[0]
+
+
+# ---------------------------------------------------------------------------
+# compressed data: the same subsets written by the encoder walk in compressed form and read back by the decoder walk
+class FieldReader(Native):
+    """Reader that replays the fields a ScriptWriter recorded (a field read with another kind or width than it was written with is a
+    layout disagreement between the two walks)."""
+
+    def __init__(self, log):
+        self.log, self.k, self.problem = list(log), 0, None
+
+    def __repr__(self):
+        return 'FieldReader@%d' % self.k
+
+    def call_method(self, name, args, kwargs, interp, frame, node):
+        if name == 'get_pos':
+            return 0
+        if not name.startswith('read'):
+            raise AnalysisError('pipeline fold: bit_reader.%s is not modelled' % name)
+        if self.k >= len(self.log):
+            self.problem = 'the decoder asks for %s%r after the %d fields the encoder wrote' % (name, tuple(args), len(self.log))
+            raise Raise('BitReadError', node, interp.where(node, frame))
+        wname, wargs = self.log[self.k]
+        self.k += 1
+        kinds = {'read_uint_or_none': 'write_uint', 'read_uint': 'write_uint', 'read_int': 'write_int', 'read_bytes': 'write_bytes'}
+        width = wargs[1] if len(wargs) > 1 else None
+        if kinds.get(name) != wname or (args and args[0] != width):
+            self.problem = 'field %d was written as %s%r and is read as %s%r' % (self.k - 1, wname, tuple(wargs), name, tuple(args))
+            raise Raise('LayoutMismatch', node, interp.where(node, frame))
+        v = wargs[0]
+        if name == 'read_uint_or_none' and isinstance(width, int) and width > 1 and v == 2 ** width - 1:
+            return None
+        return v
+
+
+def code_compressed(repo, members, subsets):
+    """Encoder walk over `subsets` (lists of flat values) in compressed mode, then decoder walk over the fields written.
+    Returns (encode result, decode result, decoded state or None, reader)."""
+    from sa.rules.walk import fold_init
+    n = len(subsets)
+
+    def state(values=None):
+        sts = fold_init(repo, True, n, values=values)
+        plain = [x for x in sts if isinstance(x.fields.get('decoded_values_all_subsets'), list) and all(type(v) is list for v in x.fields['decoded_values_all_subsets'])]
+        return (plain or sts)[0]
+    efi = repo.method('Encoder', 'process_members')
+    wr = ScriptWriter()
+    eres = PipeInterp(repo, 'Encoder').run_function(efi, lambda: {'self': Obj('Encoder', {}), 'state': state([list(s) for s in subsets]), 'bit_operator': wr,
+                                                                  'members': list(members)}, self_class='Encoder')
+    if len(eres) != 1:
+        raise AnalysisError('pipeline fold: Encoder.process_members (compressed) forks into %d paths' % len(eres))
+    if not eres[0].ok:
+        return eres[0], None, None, None
+    dfi = repo.method('Decoder', 'process_members')
+    rd = FieldReader(wr.log)
+    box = {}
+
+    def mk():
+        box['st'] = state()
+        return {'self': Obj('Decoder', {}), 'state': box['st'], 'bit_operator': rd, 'members': list(members)}
+    dres = PipeInterp(repo, 'Decoder').run_function(dfi, mk, self_class='Decoder')
+    if len(dres) != 1:
+        raise AnalysisError('pipeline fold: Decoder.process_members (compressed) forks into %d paths' % len(dres))
+    return eres[0], dres[0], box['st'], rd
